@@ -20,6 +20,9 @@ func (o *Optimizer) init() error {
 	if err != nil {
 		return err
 	}
+	if err := checkStatementFunctionCalls(stmt); err != nil {
+		return err
+	}
 	o.stmt = stmt
 	switch vstmt := stmt.(type) {
 	case *SelectStmt:
@@ -31,6 +34,80 @@ func (o *Optimizer) init() error {
 		o.optimizeDeleteExpressions(vstmt)
 		o.filter = &FilterExec{
 			Ast: vstmt.Where,
+		}
+	}
+	return nil
+}
+
+// checkStatementFunctionCalls rejects a statement that calls a function that
+// does not exist, calls a scalar function with the wrong number of arguments
+// or uses an aggregate function where no aggregate can be computed, before
+// the plan is built and the storage is touched
+func checkStatementFunctionCalls(stmt Statement) error {
+	switch vstmt := stmt.(type) {
+	case *SelectStmt:
+		if err := checkFunctionCalls(vstmt.Where.Expr, false); err != nil {
+			return err
+		}
+		for _, field := range vstmt.Fields {
+			if err := checkFunctionCalls(field, true); err != nil {
+				return err
+			}
+		}
+	case *DeleteStmt:
+		return checkFunctionCalls(vstmt.Where.Expr, false)
+	case *PutStmt:
+		for _, kv := range vstmt.KVPairs {
+			if err := checkFunctionCalls(kv.Key, false); err != nil {
+				return err
+			}
+			if err := checkFunctionCalls(kv.Value, false); err != nil {
+				return err
+			}
+		}
+	case *RemoveStmt:
+		for _, key := range vstmt.Keys {
+			if err := checkFunctionCalls(key, false); err != nil {
+				return err
+			}
+		}
+	}
+	return nil
+}
+
+func checkFunctionCalls(expr Expression, allowAggr bool) error {
+	switch e := expr.(type) {
+	case *BinaryOpExpr:
+		if err := checkFunctionCalls(e.Left, allowAggr); err != nil {
+			return err
+		}
+		return checkFunctionCalls(e.Right, allowAggr)
+	case *NotExpr:
+		return checkFunctionCalls(e.Right, false)
+	case *FieldAccessExpr:
+		return checkFunctionCalls(e.Left, false)
+	case *ListExpr:
+		for _, item := range e.List {
+			if err := checkFunctionCalls(item, false); err != nil {
+				return err
+			}
+		}
+	case *FunctionCallExpr:
+		fname, err := GetFuncNameFromExpr(e)
+		if err != nil {
+			return err
+		}
+		if fobj, have := GetScalarFunctionByName(fname); have {
+			if (!fobj.VarArgs && len(e.Args) != fobj.NumArgs) || (fobj.VarArgs && len(e.Args) < fobj.NumArgs) {
+				return NewSyntaxError(e.GetPos(), "Function %s has wrong number of arguments: %d", fname, len(e.Args))
+			}
+		} else if _, have := GetAggrFunctionByName(fname); !have || !allowAggr {
+			return NewSyntaxError(e.GetPos(), "Cannot find function %s", fname)
+		}
+		for _, arg := range e.Args {
+			if err := checkFunctionCalls(arg, false); err != nil {
+				return err
+			}
 		}
 	}
 	return nil
